@@ -114,6 +114,11 @@ def run(ck, models, tier):
                           g.addr, fmt(ga.e, 3) if isinstance(ga, Int) else ga, fmt(ereal.e, 3), g.len, fmt(gl.e) if isinstance(gl, Int) else gl,
                           fmt(eev.extra["count"].e), g.saved, gs, fmt(rc.e), fmt(gl.e) if isinstance(gl, Int) else "?"), where(pev))
             ck.floor("R2.1", "%s/normal-variants" % rn, nn, 1, tm.target)
+        # ---------------- R2.5 "the most recent installation stays in effect while the injector lives": nothing releases a live
+        # trampoline - the release primitive is only applied to the allocator's own rejected result and in the guard's destructor
+        if tm.arch != "arm":
+            release_rules(ck, tm, g, "R2.5")
+            restore_before_release(ck, tm, g, "R2.5")
         # ---------------- R2.3 LIFO
         inj, field, idx, kind = injector_adt(tm, g.adt)
         ck.ob("R2.3", "injector-container", tm.target, inj is not None, "guards are kept in %s.%s : %s<%s>" % (inj, field, kind, short(g.adt or "?")))
